@@ -173,6 +173,17 @@ def generate(rng, nfn=None, static_only=False, cxx=False):
             # a global pointer whose type is only spelled `__typeof__(fn) *`: its binding must carry the function's own signature
             fn.tp_ptr = True
         lib.fns.append(fn)
+    # the two features together on a function with its own convention: the pointer's nested function type must keep ITS convention
+    # (repaired defect b8623192: it inherited the outer one)
+    for fn in lib.fns:
+        if getattr(fn, "abi", None) == "ms_abi" and not fn.variadic and not fn.arrparam_ and not fn.static and len(fn.params) < 8 and rng.random() < 0.6:
+            fn.tp_ptr = True
+            if not any(p_ is NRH for p_ in fn.params):
+                fn.params.insert(rng.randint(0, len(fn.params)), NRH)
+                if getattr(fn, "unnamed", None):
+                    fn.unnamed = set()
+                lib.uses_nrh = True
+            break
     if not static_only and not cxx and rng.random() < 0.3:
         # a function that does not return: the Rust driver calls it last; the callee prints what arrived and leaves through _exit(0)
         ps_ = [rng.choice([t_ for t_ in types if t_.kind in ("int", "float", "bool", "ptr")]) for _ in range(rng.randint(0, 4))]
